@@ -472,23 +472,16 @@ pub fn parent_main(prop: &'static dyn Prop, tier: Tier, seed: u64) -> i32 {
                     if let Some(data) = read_cur(&cur) {
                         let f = Failure { sig: "abort".into(), detail: format!("worker process died ({})", sigdesc) };
                         let path = write_replay(prop.id(), "choices", c.profile, &data, &f);
-                        let st2 = Command::new(exe_for(c.profile))
-                            .arg(prop.id())
-                            .arg("--replay")
-                            .arg(&path)
-                            .env("VERIF_ROOT", &root)
-                            .stdout(Stdio::null())
-                            .stderr(Stdio::null())
-                            .status();
+                        let st2 = run_replay_probe(c.profile, prop.id(), Path::new(&path), &root, 60);
                         match st2 {
-                            Ok(s2) if s2.code() == Some(0) => {
+                            Ok(Some(0)) => {
                                 let _ = std::fs::remove_file(&path);
                             }
                             Ok(s2) => {
                                 found = true;
                                 let min = minimise_abort(prop.id(), c.profile, &data, &root);
                                 let f = Failure {
-                                    sig: format!("abort/{}", if s2.code().is_some() { "replay-fails" } else { "killed-by-signal" }),
+                                    sig: format!("abort/{}", if s2.is_some() { "replay-fails" } else { "killed-by-signal" }),
                                     detail: format!("worker died ({}); the saved case reproduces it in a fresh process", sigdesc),
                                 };
                                 let _ = std::fs::remove_file(&path);
@@ -630,6 +623,29 @@ pub fn parent_main(prop: &'static dyn Prop, tier: Tier, seed: u64) -> i32 {
     }
 }
 
+/// Run a replay subprocess with a timeout. Returns Some(exit code) / None when killed by a signal; Err(()) on timeout.
+fn run_replay_probe(profile: &str, prop: &str, path: &Path, root: &Path, secs: u64) -> Result<Option<i32>, ()> {
+    let mut child = match Command::new(exe_for(profile)).arg(prop).arg("--replay").arg(path).env("VERIF_ROOT", root).stdout(Stdio::null()).stderr(Stdio::null()).spawn() {
+        Ok(c) => c,
+        Err(_) => return Err(()),
+    };
+    let start = Instant::now();
+    loop {
+        match child.try_wait() {
+            Ok(Some(st)) => return Ok(st.code()),
+            Ok(None) => {
+                if start.elapsed() > Duration::from_secs(secs) {
+                    let _ = child.kill();
+                    let _ = child.wait();
+                    return Err(());
+                }
+                std::thread::sleep(Duration::from_millis(10));
+            }
+            Err(_) => return Err(()),
+        }
+    }
+}
+
 /// Delta-debug an abort-class input: each probe is a subprocess.
 fn minimise_abort(prop: &str, profile: &str, data: &[u8], root: &Path) -> Vec<u8> {
     let tmp = root.join("work").join("violations").join(format!("{}-{}-minprobe.json", prop, profile));
@@ -638,10 +654,7 @@ fn minimise_abort(prop: &str, profile: &str, data: &[u8], root: &Path) -> Vec<u8
         if std::fs::write(&tmp, v.to_string()).is_err() {
             return false;
         }
-        match Command::new(exe_for(profile)).arg(prop).arg("--replay").arg(&tmp).env("VERIF_ROOT", root).stdout(Stdio::null()).stderr(Stdio::null()).status() {
-            Ok(s) => s.code().is_none(), // died by signal
-            Err(_) => false,
-        }
+        matches!(run_replay_probe(profile, prop, &tmp, root, 20), Ok(None)) // died by signal
     };
     let mut cur = data.to_vec();
     let mut probes = 0;
